@@ -635,6 +635,28 @@ func c05linesTrace(s *vt.Sink, class string, seqs []c05seq, rng *rand.Rand, samp
 			tr.Emit("sdpparse", "accepted", r.accepted, "stable", r.stable, "panic", r.panicked, "why", c05why("lines", r.accepted, r.stable, r.panicked, r.diff),
 				"d", r.diff, "s", q.K)
 		}
+		// the same sequence with the value of ONE line degraded - left empty, or cut after its
+		// first field: whatever tolerance the reader shows for such a line, the lines that
+		// follow must still be handled without a panic (logged when something is wrong)
+		if len(q.K) <= 6 {
+			lines := strings.Split(strings.TrimSuffix(string(c05lineDoc(q.K)), "\r\n"), "\r\n")
+			for li, l := range lines {
+				val := l[2:]
+				for _, dv := range []string{"", strings.SplitN(val, " ", 2)[0]} {
+					if dv == val {
+						continue
+					}
+					mod := append([]string(nil), lines...)
+					mod[li] = l[:2] + dv
+					rd := c05check([]byte(strings.Join(mod, "\r\n") + "\r\n"))
+					if rd.panicked || (rd.accepted && !rd.stable) {
+						c05detail("degraded line %d of keys=%q: accepted=%v stable=%v panic=%v err=%s", li, q.K, rd.accepted, rd.stable, rd.panicked, rd.first.err)
+						tr.Emit("sdpparse", "accepted", rd.accepted, "stable", rd.stable, "panic", rd.panicked,
+							"why", c05why("degraded", rd.accepted, rd.stable, rd.panicked, rd.diff), "d", rd.diff, "s", fmt.Sprintf("%s#%d:%q", q.K, li, dv))
+					}
+				}
+			}
+		}
 	}
 	tr.Emit("end")
 	return drift
